@@ -31,7 +31,7 @@ OBLIGATIONS = [NS + t for t in [
     # the routine as TRANSLATED from the source on this run (Gen/EarlyStopProg.lean, tools/translate_prog.py) returns what the
     # model returns and makes the same update calls — for every history and configuration
     "Pysersic.Proofs.GenEarlyStop.gen_run_eq", "Pysersic.Proofs.GenEarlyStop.gen_calls_eq",
-]
+] + [NS + t for t in ["src_calls_bound", "src_result_first_argmin", "src_run_isSome_iff", "src_calls_are_model_steps"]]
 MIRRORED_FILES = ["pysersic/pysersic.py"]
 ASSUMPTIONS = [
     "the SVI object is abstracted to (state identity, loss) per update call; Adam, ELBO estimation and jit are not modelled",
